@@ -147,18 +147,32 @@ def judge_parentheses(chk, gen, ob, cases, stats, per_sig):
     for (c, n, j), q, r in zip(jobs, queries, res):
         if canon(ob.decode("where", r)) != canon(ob.get("where", c["e"])):
             culprits[T.key(c["e"])].append((n, j, q))
+    # no single site explains it: reduce the set of dropped pairs to a minimal one that still changes the answer
+    hard = [c for c in bad if not culprits.get(T.key(c["e"]))]
+    stats["minimal_parentheses_need_several_sites"] = len(hard)
+    for c in hard:
+        sites = T.paren_sites(c["e"])
+        keep = list(sites)
+        for st in sites:
+            trial = [x for x in keep if x is not st]
+            if not trial:
+                continue
+            q = ob.ctx["where"] % T.render_min(c["e"], only={(T.key(n), j) for n, j in trial})
+            r = oracle.run_sql(ob.setup, [q], batch=1)[0]
+            ob.queries += 1
+            if canon(ob.decode("where", r)) != canon(ob.get("where", c["e"])):
+                keep = trial
+        q = ob.ctx["where"] % T.render_min(c["e"], only={(T.key(n), j) for n, j in keep})
+        culprits[T.key(c["e"])] = [(n, j, q) for n, j in keep]
     for c in bad:
         cl = lambda k: k[0] if k[0] in ("and", "or", "not") else "predicate"
-        found = culprits.get(T.key(c["e"]), [])
         sigs = collections.OrderedDict()
-        for n, j, q in found:
+        for n, j, q in culprits[T.key(c["e"])]:
             sigs.setdefault("%s:%s:[%s]:answer_differs_from_fully_parenthesised" % (ctx, T.family(n), cl(n[j])), q)
-        if not found:
-            sigs["%s:only_several_dropped_parentheses_together_change_the_answer" % ctx] = ob.sql(ctx, c["e"])
         for sig, q in sigs.items():
             per_sig[sig] += 1
             chk.classify(sig, {"context": ctx, "tree": c["e"], "expected": c["v"], "sql": ob.sql(ctx, c["e"]),
-                               "sql_fully_parenthesised": ob.sql("where", c["e"]), "sql_one_pair_dropped": q,
+                               "sql_fully_parenthesised": ob.sql("where", c["e"]), "sql_minimal_set_of_dropped_pairs": q,
                                "observed_minimal": canon(ob.get(ctx, c["e"])), "observed_full": canon(ob.get("where", c["e"]))})
 
 
